@@ -13,6 +13,24 @@ def test_lincont():
     assert d == {'a': 1, 'b': 2, 'c': [1]} and d.get('z') is None and list(d) == ['a', 'b', 'c']
     c = LinCounter('abca')
     assert c['a'] == 2 and c['z'] == 0
+    # in-place operators keep the identity of the container (aliasing is visible), with the
+    # arithmetic of collections.Counter / dict
+    from collections import Counter
+    for op in ('|', '+', '-', '&'):
+        for x, y in (('aab', 'bcc'), ('aab', 'abb'), ('', 'a'), ('abc', '')):
+            lc, alias, rc = LinCounter(x), None, Counter(x)
+            alias = lc
+            ns = {'lc': lc, 'rc': rc, 'ly': LinCounter(y), 'ry': Counter(y)}
+            exec(f'lc {op}= ly; rc {op}= ry', ns)
+            assert ns['lc'] is alias and dict(ns['lc'].items()) == dict(ns['rc']), (op, x, y)
+            assert dict(eval(f'LinCounter(x) {op} LinCounter(y)', {'LinCounter': LinCounter, 'x': x, 'y': y}).items()) \
+                == dict(eval(f'Counter(x) {op} Counter(y)', {'Counter': Counter, 'x': x, 'y': y}))
+    e = d
+    d |= {'q': 7}
+    assert e is d and d['q'] == 7
+    t = s
+    s |= {9}
+    assert t is s and 9 in s
     ND_CHOICES[:] = [2, 1]
     assert list(NDSet([10, 20, 30])) == [30, 20, 10]
     assert list(NDSet([10, 20, 30])) == [10, 20, 30]
